@@ -195,7 +195,7 @@ def run(ctx: common.Ctx):
                     seqs.append((pps, [a, b], False))
         nexh = len(seqs) - ncorpus
         big = alphabet + ["\r\n", "z", "\t", "\n\n"]
-        for _ in range(400 if ctx.quick else 6000):
+        for _ in range(400 if ctx.quick else 4000):
             pps = rng.choice(ppss + [["L3"], ["T", "L2", "L1"]])
             ts = ["".join(rng.choice(big) for _ in range(rng.randint(0, 9))) for _ in range(rng.randint(3, 5))]
             seqs.append((pps, ts, rng.random() < 0.5))
@@ -261,13 +261,15 @@ def run(ctx: common.Ctx):
 
     # ---- (d) paired real runs ------------------------------------------------------------------------------------------------------
     import pydsdl
-    inputs = shared.corpus_inputs(ctx) + shared.generated_inputs(ctx, 1 if ctx.quick else 5)
+    inputs = shared.corpus_inputs(ctx) + shared.generated_inputs(ctx, 1 if ctx.quick else 3)
+    if ctx.quick:
+        inputs = [i for i in inputs if not i[0].startswith("corpus:") or i[0] == "corpus:vnet"]
     scratch = ctx.scratch
     (scratch / "cwd").mkdir()
     tpl_root = common.VERIF / "corpus" / "C10" / "templates"
     jobs, meta = [], {}
     snaps = {iname: pr.snapshot_input(root, lookups) for iname, root, lookups in inputs}
-    nsub = 2 if ctx.quick else 5
+    nsub = 2 if ctx.quick else 3
     nopt = 2 if ctx.quick else 3
     for ii, (iname, root, lookups) in enumerate(inputs):
         types = pydsdl.read_namespace(str(root), [str(l) for l in lookups])
